@@ -18,6 +18,8 @@ structure NWorld where
   quiet : Bool := false
   /-- number of servers created without an explicit challenge key (each gets a key of its own) -/
   made : Nat := 0
+  /-- tokens made by `tok-make` (the library's own `ConnectToken::generate`: fresh random keys and nonce per token) -/
+  tokens : List (Nat × ConnectToken) := []
 
 def NWorld.init : NWorld := {}
 
@@ -267,6 +269,36 @@ def stepOp (w : NWorld) (toks : List String) : Option (NWorld × String) :=
         | .err e => some (w, s!"err:{e.name}")
         | .panic _ => some (die w)
     | _, _, _, _, _, _, _ => bad
+  -- `ConnectToken::generate` with the token kept in the world: every call draws two INDEPENDENT keys and a nonce
+  | ["tok-make", tk, now, proto, expireS, id, timeout, addrs, ud, key] =>
+    match pU64 tk, pU64 now, pU64 proto, pU64 expireS, pU64 id, pI32 timeout, pAddrsMax 40 addrs, pHexN 32 key with
+    | some tk, some now, some proto, some expireS, some id, some timeout, some addrs, some key =>
+      let ud? : Option Bytes := if ud = "-" then some (List.replicate 256 0) else pHexN 256 ud
+      match ud? with
+      | none => bad
+      | some ud =>
+        if addrs.any Option.isNone then bad else
+        let n := w.tokens.length
+        let pat (mul add : Nat) (len : Nat) : Bytes := (List.range len).map fun i => UInt8.ofNat ((i * mul + add + n * 41) % 256)
+        match ConnectToken.generate aead (now * 1000) proto expireS id timeout (addrs.filterMap fun x => x) ud (pat 7 3 32) (pat 11 5 32)
+                (pat 13 9 24) key with
+        | .ok t =>
+          some ({ w with tokens := (tk, t) :: w.tokens.filter (·.1 ≠ tk) },
+            s!"ok {t.clientId} {t.protocolId} {t.createTimestamp} {t.expireTimestamp} {t.timeoutSeconds} {showAddrs t.serverAddresses} distinct={bit (t.clientToServerKey != t.serverToClientKey)}")
+        | .err e => some (w, s!"err:{e.name}")
+        | .panic _ => some (die w)
+    | _, _, _, _, _, _, _, _ => bad
+  | ["cli-newt", h, now, tk] =>
+    match pU64 h, pU64 now, pU64 tk with
+    | some h, some now, some tk =>
+      match (w.tokens.find? (·.1 = tk)).map (·.2) with
+      | none => bad
+      | some t =>
+        match NetcodeClient.new (now * 1000) t with
+        | .ok c => some (setC w h c, "ok")
+        | .err e => some (w, s!"err:{e.name}")
+        | .panic _ => some (die w)
+    | _, _, _ => bad
   | ["ptok-seal", proto, expire, xnonce, key, id, timeout, addrs, c2s, s2c, ud] =>
     match pU64 proto, pU64 expire, pHexN 24 xnonce, pHexN 32 key, pU64 id, pI32 timeout, pAddrs addrs,
           pHexN 32 c2s, pHexN 32 s2c, pUserData ud with
